@@ -116,3 +116,16 @@ pub fn write_replay(dir: &str, name: &str, header: &[String], trace: &[String]) 
     for l in trace { writeln!(f, "{l}").unwrap(); }
     path
 }
+
+/// records which run is about to start (`<replay_dir>/.current-<pid>`): if the code under test kills the process (SIGSEGV in
+/// freed memory, abort in a destructor, ...) the checker turns this into a replay command for that very run
+pub fn mark_run(seed: u64) {
+    let args: Vec<String> = std::env::args().collect();
+    let dir = args.iter().find_map(|a| a.strip_prefix("replay_dir=")).unwrap_or("");
+    if dir.is_empty() { return }
+    std::fs::create_dir_all(dir).ok();
+    let bin = std::path::Path::new(&args[0]).file_name().map(|x| x.to_string_lossy().to_string()).unwrap_or_default();
+    let keep: Vec<&String> = args[1..].iter().filter(|a| !(a.starts_with("runs=") || a.starts_with("seed=") || a.starts_with("seedx=") || a.starts_with("trace=") || a.starts_with("replay_dir=") || a.starts_with("prop="))).collect();
+    let cmd = format!("{bin} {} runs=1 seedx={seed}", keep.iter().map(|x| x.as_str()).collect::<Vec<_>>().join(" "));
+    let _ = std::fs::write(format!("{dir}/.current-{}", std::process::id()), cmd);
+}
